@@ -22,7 +22,7 @@ package storage
 //@ spec fdef enc2(l String, r String) String = l + ", upper_anchor=" + r
 //@ spec fdef enc1(i String, r String) String = "<limit=" + i + ", lower_anchor=" + r
 //@ spec macro anchorText(t *time.Time) String = ite(t != nil, timefmt(deref(t), "2006-01-02T15:04:05.999999999Z07:00"), "nil")
-//@ spec macro loEnc(l *LookupOptions) String = enc1(itoa(l.MaxElements), enc2(anchorText(l.LowerAnchor), enc3(anchorText(l.UpperAnchor), enc4(ite(l.LatestAnchor, "true", "false"), fmtref(typetag("*filter.StorageOptions"), l.FilterOptions)))))
+//@ spec macro loEnc(l *LookupOptions) String = enc1(itoa(l.MaxElements), enc2(anchorText(l.LowerAnchor), enc3(anchorText(l.UpperAnchor), enc4(ite(l.LatestAnchor, "true", "false"), strof(l.FilterOptions, "*filter.StorageOptions")))))
 
 //@ props C19
 //@ func (l *LookupOptions) String
@@ -42,7 +42,7 @@ package storage
 //@ axiom itoa-injective: forall x Int, y Int :: {itoa(x), itoa(y)} itoa(x) == itoa(y) ==> x == y
 //@ axiom timefmt-format: forall t Time :: {timefmt(t, "2006-01-02T15:04:05.999999999Z07:00")} isAnchorText(timefmt(t, "2006-01-02T15:04:05.999999999Z07:00")) && timefmt(t, "2006-01-02T15:04:05.999999999Z07:00") != "nil"
 //@ axiom timefmt-injective: forall s Time, t Time :: {timefmt(s, "2006-01-02T15:04:05.999999999Z07:00"), timefmt(t, "2006-01-02T15:04:05.999999999Z07:00")} timefmt(s, "2006-01-02T15:04:05.999999999Z07:00") == timefmt(t, "2006-01-02T15:04:05.999999999Z07:00") ==> s == t
-//@ axiom filteroptions-format: forall a *filter.StorageOptions, b *filter.StorageOptions :: {fmtref(typetag("*filter.StorageOptions"), a), fmtref(typetag("*filter.StorageOptions"), b)} fmtref(typetag("*filter.StorageOptions"), a) == fmtref(typetag("*filter.StorageOptions"), b) ==> (a == nil) == (b == nil) && (a != nil ==> a.Operation == b.Operation && a.Field == b.Field && a.Value == b.Value)
+//@ axiom filteroptions-format: forall a *filter.StorageOptions, b *filter.StorageOptions :: {strof(a, "*filter.StorageOptions"), strof(b, "*filter.StorageOptions")} strof(a, "*filter.StorageOptions") == strof(b, "*filter.StorageOptions") ==> (a == nil) == (b == nil) && (a != nil ==> a.Operation == b.Operation && a.Field == b.Field && a.Value == b.Value)
 
 //@ lemma nil-is-anchor-text using : isAnchorText("nil")
 // The four layers are injective (pure string lemmas).
